@@ -50,7 +50,7 @@ pub fn eval_pow2(out: &[u8], radix: u32, base: u32, eradix: u32) -> Result<(bool
     }
     let mut p = e * kb - nfrac * k;
     if m == 0 { return Ok((neg, 0, 0)); }
-    while m & 1 == 0 { m >>= 1; p += 1; }
+    let tz = m.trailing_zeros(); m >>= tz; p += tz as i64;
     Ok((neg, m, p))
 }
 
@@ -58,14 +58,14 @@ pub fn want_f64(v: f64) -> (bool, u128, i64) {
     let b = v.to_bits(); let neg = b >> 63 == 1; let ef = ((b >> 52) & 0x7FF) as i64; let fr = b & ((1u64 << 52) - 1);
     let (mut m, mut p) = if ef == 0 { (fr as u128, -1074i64) } else { ((fr | (1 << 52)) as u128, ef - 1075) };
     if m == 0 { return (neg, 0, 0); }
-    while m & 1 == 0 { m >>= 1; p += 1; }
+    let tz = m.trailing_zeros(); m >>= tz; p += tz as i64;
     (neg, m, p)
 }
 pub fn want_f32(v: f32) -> (bool, u128, i64) {
     let b = v.to_bits(); let neg = b >> 31 == 1; let ef = ((b >> 23) & 0xFF) as i64; let fr = b & ((1u32 << 23) - 1);
     let (mut m, mut p) = if ef == 0 { (fr as u128, -149i64) } else { ((fr | (1 << 23)) as u128, ef - 150) };
     if m == 0 { return (neg, 0, 0); }
-    while m & 1 == 0 { m >>= 1; p += 1; }
+    let tz = m.trailing_zeros(); m >>= tz; p += tz as i64;
     (neg, m, p)
 }
 
@@ -82,7 +82,7 @@ macro_rules! cmp_wbin {
     ($name:ident, $t:ty, $want:ident) => {
         pub fn $name<const F: u128>(v: $t, radix: u32, base: u32, eradix: u32, notation: u8) -> Result<(), &'static str> {
             let o = match opts(notation) { Some(o) => o, None => return Err("options with exponent '^' are valid") };
-            let mut buf = [0u8; 1200];
+            let mut buf = [0u8; 320];
             let n = v.to_lexical_with_options::<F>(&mut buf, &o).len();
             let got = eval_pow2(&buf[..n], radix, base, eradix)?;
             let want = $want(v);
@@ -99,7 +99,7 @@ macro_rules! rt_wbin {
             use lexical_parse_float::FromLexicalWithOptions;
             let o = match opts(notation) { Some(o) => o, None => return Err("options with exponent '^' are valid") };
             let po = match lexical_parse_float::Options::builder().exponent(EXPC).build() { Ok(o) => o, Err(_) => return Err("parse options with exponent '^' are valid") };
-            let mut buf = [0u8; 1200];
+            let mut buf = [0u8; 320];
             let n = v.to_lexical_with_options::<F>(&mut buf, &o).len();
             match <$t>::from_lexical_with_options::<F>(&buf[..n], &po) {
                 Ok(r) => if r.to_bits() == v.to_bits() { Ok(()) } else { Err("re-parsing the output in the same format returns the identical bits") },
@@ -151,12 +151,14 @@ macro_rules! rt32 {
 crate::harnesses! {
     /// write -> parse round trip, every finite f32, hex float (radix 16, exponent base 2, decimal exponent digits).
     /// @prop C06 C08 C05
+    /// @tier thorough
+    /// @mem 12
     /// @feat pow2 radix
     /// @fn lexical-write-float::hex::write_float
     /// @fn lexical-parse-float::parse::parse_complete (fast path applicability for mixed exponent base)
     /// @fn lexical-parse-float::number::Number::try_fast_path
     /// @fn lexical-parse-float::binary::binary
-    /// @timeout 3000
+    /// @timeout 5400
     #[cfg_attr(kani, kani::unwind(14))]
     fn rt_f32_hex16_base2() { rt32!(mixed_format(16, 2), 0) }
 
@@ -172,6 +174,7 @@ crate::harnesses! {
 
     /// every finite f32, radix 16 with exponent base 2 (hex float), default notation.
     /// @prop C06 C09
+    /// @mem 10
     /// @feat pow2 radix
     /// @fn lexical-write-float::hex::write_float
     /// @fn lexical-write-float::hex::{write_float_scientific, write_float_positive_exponent, write_float_negative_exponent}
@@ -182,6 +185,7 @@ crate::harnesses! {
 
     /// every finite f32, radix 16 (same exponent base), default notation.
     /// @prop C06 C09
+    /// @mem 10
     /// @feat pow2 radix
     /// @fn lexical-write-float::binary::write_float
     /// @timeout 2400
@@ -190,6 +194,7 @@ crate::harnesses! {
 
     /// every finite f32, radix 8.
     /// @prop C06 C09
+    /// @mem 10
     /// @feat pow2 radix
     /// @fn lexical-write-float::binary::write_float
     /// @timeout 2400
@@ -198,6 +203,7 @@ crate::harnesses! {
 
     /// every finite f32, radix 2.
     /// @prop C06 C09
+    /// @mem 10
     /// @tier thorough
     /// @feat pow2 radix
     /// @fn lexical-write-float::binary::write_float
@@ -207,6 +213,7 @@ crate::harnesses! {
 
     /// every finite f32, radix 4.
     /// @prop C06 C09
+    /// @mem 10
     /// @tier thorough
     /// @feat pow2 radix
     /// @fn lexical-write-float::binary::write_float
@@ -216,6 +223,7 @@ crate::harnesses! {
 
     /// every finite f32, radix 32.
     /// @prop C06 C09
+    /// @mem 10
     /// @tier thorough
     /// @feat pow2 radix
     /// @fn lexical-write-float::binary::write_float
@@ -225,6 +233,7 @@ crate::harnesses! {
 
     /// every finite f32, radix 16 / base 4 and radix 8 / base 2, exponent notation forced.
     /// @prop C06 C09
+    /// @mem 10
     /// @tier thorough
     /// @feat pow2 radix
     /// @fn lexical-write-float::hex::write_float
@@ -234,6 +243,7 @@ crate::harnesses! {
 
     /// every finite f32, radix 8 / base 2, exponent notation forced.
     /// @prop C06 C09
+    /// @mem 10
     /// @tier thorough
     /// @feat pow2 radix
     /// @fn lexical-write-float::hex::write_float
@@ -243,6 +253,7 @@ crate::harnesses! {
 
     /// every finite f64, radix 16 with exponent base 2 (hex float), default notation.
     /// @prop C06 C09
+    /// @mem 10
     /// @tier thorough
     /// @feat pow2 radix
     /// @fn lexical-write-float::hex::write_float
@@ -252,6 +263,7 @@ crate::harnesses! {
 
     /// every finite f64, radix 32, default notation.
     /// @prop C06 C09
+    /// @mem 10
     /// @tier thorough
     /// @feat pow2 radix
     /// @fn lexical-write-float::binary::write_float
